@@ -341,6 +341,7 @@ pub fn c04() -> JobCheck {
         id: "C04",
         profile: || Profile {
             name: "c04",
+            w_repart: 26,
             w_replay: 10,
             w_iterate: 8,
             w_diamond: 10,
